@@ -21,8 +21,8 @@ LEVEL_TEXT = ("Theorems (Lean 4, all objects, any address width): __lt__ is the 
               "irreflexive, asymmetric, transitive, trichotomous with __eq__; __gt__ is its flip; __eq__ iff same address and length; "
               "equal objects hash equal for any string hash; sorted() is an ordered permutation and puts a contained, more specific prefix "
               "after its container, so the first match in descending order is the longest match; x+n / x-n succeed exactly inside the address "
-              "space, keep the prefix length and cancel; the prefixlen setter keeps the address; the network_offset setter sets it (for "
-              "non-negative offsets: a negative offset is accepted by the code, finding F41).")
+              "space, keep the prefix length and cancel; the prefixlen setter keeps the address; the network_offset setter sets it for "
+              "every offset inside the network and rejects every other integer, negative ones included.")
 LEVEL_NOTE = ("Trusted: Lean kernel; axioms propext/Classical.choice/Quot.sound only; the correspondence harness; the value-level reading "
               "of an object. hash() is uninterpreted in the model: only 'equal objects hash equal' is proved, and checked on the real hashes.")
 EXHAUSTIVE = {"quick": False, "thorough": False}
@@ -120,9 +120,6 @@ def rand_seq(rng, fam):
             ops.append(f"off:{n}")
             if 0 <= n <= size - 1:
                 cur_ip = net + n
-            elif n < 0 and net + n >= 0:
-                ops.append("show")
-                break                 # the object is incoherent from here on (F41); stop the sequence
             ops.append("goff")
         else:
             ops.append(rng.choice(["show", "goff"]))
@@ -387,9 +384,3 @@ def oracle_int(case, ans):
 
 def oracle(case, ans):
     return {"cmp": oracle_cmp, "seq": oracle_seq, "int": oracle_int}[case["kind"]](case, ans)
-
-
-def known_id(case, failure):
-    if case["kind"] == "seq" and "(negative offset)" in failure:
-        return "F41"
-    return None
